@@ -323,3 +323,93 @@ impl Drop for ProbeSound {
 		}
 	}
 }
+
+// ---------------------------------------------------------------------------------------------
+// probe effect: a non-commuting per-frame operation; logs every call and every rate it is told
+
+use kira::effect::{Effect, EffectBuilder};
+
+#[derive(Debug, Clone, Copy, PartialEq)]
+pub enum FxOp {
+	Add(f32),
+	Mul(f32),
+}
+
+pub struct ProbeFxShared {
+	pub calls: Mutex<Vec<(u32, f64)>>,
+	pub init_rate: AtomicU64,
+	pub last_rate: AtomicU64,
+	pub rate_mismatches: AtomicU64,
+	pub on_start_calls: AtomicU64,
+}
+
+#[derive(Clone)]
+pub struct ProbeFxBuilder {
+	pub op: FxOp,
+	pub shared: Arc<ProbeFxShared>,
+}
+
+impl ProbeFxBuilder {
+	pub fn new(op: FxOp) -> Self {
+		Self {
+			op,
+			shared: Arc::new(ProbeFxShared {
+				calls: Mutex::new(Vec::with_capacity(4096)),
+				init_rate: AtomicU64::new(0),
+				last_rate: AtomicU64::new(0),
+				rate_mismatches: AtomicU64::new(0),
+				on_start_calls: AtomicU64::new(0),
+			}),
+		}
+	}
+}
+
+struct ProbeFx {
+	op: FxOp,
+	shared: Arc<ProbeFxShared>,
+}
+
+impl EffectBuilder for ProbeFxBuilder {
+	type Handle = Arc<ProbeFxShared>;
+	fn build(self) -> (Box<dyn Effect>, Self::Handle) {
+		let sh = self.shared.clone();
+		(Box::new(ProbeFx { op: self.op, shared: self.shared }), sh)
+	}
+}
+
+impl Effect for ProbeFx {
+	fn init(&mut self, sample_rate: u32, _internal_buffer_size: usize) {
+		self.shared.init_rate.store(sample_rate as u64, Ordering::SeqCst);
+		self.shared.last_rate.store(sample_rate as u64, Ordering::SeqCst);
+	}
+	fn on_change_sample_rate(&mut self, sample_rate: u32) {
+		self.shared.last_rate.store(sample_rate as u64, Ordering::SeqCst);
+	}
+	fn on_start_processing(&mut self) {
+		self.shared.on_start_calls.fetch_add(1, Ordering::SeqCst);
+	}
+	fn process(&mut self, input: &mut [Frame], dt: f64, _info: &Info) {
+		{
+			let mut c = self.shared.calls.lock().unwrap();
+			if c.len() < c.capacity() {
+				c.push((input.len() as u32, dt));
+			}
+		}
+		let told = self.shared.last_rate.load(Ordering::SeqCst) as f64;
+		if told > 0.0 && ((1.0 / dt) - told).abs() > 1e-6 * told {
+			self.shared.rate_mismatches.fetch_add(1, Ordering::SeqCst);
+		}
+		for f in input.iter_mut() {
+			match self.op {
+				FxOp::Add(c) => {
+					f.left += c;
+					f.right += c;
+				}
+				FxOp::Mul(k) => {
+					f.left *= k;
+					f.right *= k;
+				}
+			}
+		}
+	}
+}
